@@ -105,7 +105,8 @@ def reset():
 class ScriptedPeer(object):
     """Reactive fake SMTP/LMTP server behind the client's socket.  For every
     stage it asks `script(stage, index)` for one of:
-        ('reply', code, [lines][, unsolicited bytes sent with the reply])
+        ('reply', code, [lines][, unsolicited bytes behind the reply
+                                [, 'same-segment']])
         ('close',)   ('stall',)   ('garbage', bytes)
     Stages: banner EHLO HELO LHLO STARTTLS AUTH MAIL RCPT DATA EOD RSET QUIT
     NOOP other.  It implements the SMTP framing automaton (DATA content up to
@@ -157,8 +158,10 @@ class ScriptedPeer(object):
                 wire = wire + code.encode('ascii') + sep + \
                     (ln.encode('utf-8') if not isinstance(ln, bytes)
                      else ln) + b'\r\n'
+            if len(a) > 4 and a[4] == 'same-segment':
+                wire = wire + a[3]  # unsolicited bytes right behind the reply
             self._say(wire)
-            if len(a) > 3:
+            if len(a) == 4:
                 self._say(a[3])     # unsolicited bytes, in their own segment
             return code
         if a[0] == 'close':
